@@ -280,13 +280,20 @@ func scnC07Audit(rc *RunCtx) {
 	rc.R.Sample = map[string]any{"lines": e.Lines}
 	parse := func(suffix string) (string, error) {
 		var msgs []*auparse.AuditMessage
+		var dataErrs []string
 		for _, l := range e.Lines {
 			m, err := auparse.ParseLogLine(l + suffix)
 			if err != nil {
 				return "", fmt.Errorf("%q: %w", l+suffix, err)
 			}
 			if _, err := m.Data(); err != nil {
-				return "", fmt.Errorf("%q: data: %w", l+suffix, err)
+				if m.RecordType == auparse.AUDIT_EXECVE {
+					// a continued argument vector: the library cannot read the fields of such a
+					// record, with or without the terminator
+					dataErrs = append(dataErrs, err.Error())
+				} else {
+					return "", fmt.Errorf("%q: data: %w", l+suffix, err)
+				}
 			}
 			if m.RecordType == auparse.AUDIT_EOE {
 				continue
@@ -300,7 +307,7 @@ func scnC07Audit(rc *RunCtx) {
 		aucoalesce.ResolveIDs(ev)
 		ev.Warnings = nil
 		j, _ := json.Marshal(ev)
-		return string(j), nil
+		return string(j) + strings.Join(dataErrs, ";"), nil
 	}
 	plain, err1 := parse("")
 	nl, err2 := parse("\n")
@@ -336,6 +343,16 @@ func scnC07AuditPipe(rc *RunCtx) {
 		}
 	}
 	capacity := []int{10000, 1, 4, 32, 256}[t.Choose(5, "capacity")]
+	// the writer may die in the middle of a record: what it wrote of it is not a record
+	torn := ""
+	if t.Choose(4, "torn.at.eof") == 3 {
+		last := k.UserMsg("USER_END", "300", 4000, 1000, true, 0).Lines[0]
+		torn = last[:1+t.Choose(len(last)-1, "torn.cut")]
+		if i := strings.Index(last, " ses=300"); i > 0 && t.Choose(2, "torn.inside.ses") == 1 {
+			torn = last[:i+len(" ses=3")+t.Choose(2, "torn.ses.digits")] // cut inside the session id
+		}
+		rc.Sim.Count("c07.audit_record_torn_at_eof")
+	}
 	rc.Sim.Knobs["bufio"] = []int{4096, 128, 512, 1024}[t.Choose(4, "bufio")]
 	paceMs := []int{0, 0, 5, 50}[t.Choose(4, "pace")]
 	startLate := t.Choose(3, "late") == 1
@@ -372,6 +389,9 @@ func scnC07AuditPipe(rc *RunCtx) {
 		for _, l := range lines {
 			all = append(all, l...)
 			all = append(all, '\n')
+		}
+		if torn != "" {
+			all = append(all, torn...)
 		}
 		// records are written in bursts: several records per write, cut at taped places
 		for len(all) > 0 {
@@ -422,6 +442,10 @@ func scnC07AuditPipe(rc *RunCtx) {
 	}
 	if len(box.got) != len(lines) {
 		rc.Fail("C07", "audit-pipe-record-count", "%d records were written to the audit pipe, %d were handed over", len(lines), len(box.got))
+		return
+	}
+	if torn != "" && len(ch) > 0 {
+		rc.Fail("C07", "audit-pipe-torn-record-handed-over", "the writer died inside a record (%d bytes without terminator): %q was handed over as a record", len(torn), truncate(<-ch, 300))
 		return
 	}
 	render := func(l string) string {
